@@ -1532,4 +1532,126 @@ theorem escape_plain (dq sq : Bool) (s : Str)
     rw [e, escape_append, one c (by simp), ih (fun x hx => h x (List.mem_cons_of_mem _ hx))
       (fun x hx => one x (List.mem_cons_of_mem _ hx))]
 
+/-! ## sufficient conditions in plain words -/
+
+/-- characters with no inline meaning anywhere: everything except ``\ ` < & ~ [ * _`` and newline -/
+def plainInline (c : Char) : Bool :=
+  c != '\\' && c != '`' && c != '<' && c != '&' && c != '~' && c != '[' && c != '*' && c != '_' && c != '\n'
+
+theorem plainInline_of (c : Char) (h : plainInline c = true) :
+    c ≠ '\\' ∧ c ≠ '`' ∧ c ≠ '<' ∧ c ≠ '&' ∧ c ≠ '~' ∧ c ≠ '[' ∧ c ≠ '*' ∧ c ≠ '_' ∧ c ≠ '\n' := by
+  simpa [plainInline, and_assoc] using h
+
+theorem ltOk_plain : ∀ (s : Str), (∀ c ∈ s, c ≠ '<') → ltOk s = true
+  | [], _ => rfl
+  | c :: s, h => by simp [ltOk, h c (by simp), ltOk_plain s (fun x hx => h x (List.mem_cons_of_mem _ hx))]
+
+theorem ampOk_plain : ∀ (s : Str), (∀ c ∈ s, c ≠ '&') → ampOk s = true
+  | [], _ => rfl
+  | c :: s, h => by simp [ampOk, h c (by simp), ampOk_plain s (fun x hx => h x (List.mem_cons_of_mem _ hx))]
+
+theorem tildeOk_plain : ∀ (s : Str), (∀ c ∈ s, c ≠ '~') → tildeOk s = true
+  | [], _ => rfl
+  | c :: s, h => by simp [tildeOk, h c (by simp), tildeOk_plain s (fun x hx => h x (List.mem_cons_of_mem _ hx))]
+
+theorem bracketsOk_plain : ∀ (s : Str), (∀ c ∈ s, c ≠ '[') → bracketsOk s = true
+  | [], _ => rfl
+  | c :: s, h => by simp [bracketsOk, h c (by simp), bracketsOk_plain s (fun x hx => h x (List.mem_cons_of_mem _ hx))]
+
+theorem emphOk_plain : ∀ (s : Str) (p : Char), (∀ c ∈ s, c ≠ '*' ∧ c ≠ '_') → emphOk p s = true
+  | [], _, _ => rfl
+  | c :: s, p, h => by
+    simp [emphOk, (h c (by simp)).1, (h c (by simp)).2, emphOk_plain s c (fun x hx => h x (List.mem_cons_of_mem _ hx))]
+
+/-- **text made only of such characters is inert** (letters, digits, spaces, non-ASCII text and
+    ``. , ; : ( ) - + = | # > / ' " ^ $ % @ ? ! ] { }``) -/
+theorem inertText_of_plain (s : Str) (h : ∀ c ∈ s, plainInline c = true) : inertText s = true := by
+  have hp := fun c hc => plainInline_of c (h c hc)
+  have hall : s.all okChar = true := by
+    rw [List.all_eq_true]; intro c hc
+    obtain ⟨h1, h2, _⟩ := hp c hc
+    simp [okChar, h1, h2]
+  have hnl : s.contains '\n' = false := by
+    cases hh : s.contains '\n' with
+    | false => rfl
+    | true =>
+      have := (hp '\n' (by simpa using hh)).2.2.2.2.2.2.2.2
+      exact absurd rfl this
+  simp [inertText, inertBody, hall, hnl, ltOk_plain s (fun c hc => (hp c hc).2.2.1),
+    ampOk_plain s (fun c hc => (hp c hc).2.2.2.1), tildeOk_plain s (fun c hc => (hp c hc).2.2.2.2.1),
+    bracketsOk_plain s (fun c hc => (hp c hc).2.2.2.2.2.1),
+    emphOk_plain s ' ' (fun c hc => ⟨(hp c hc).2.2.2.2.2.2.1, (hp c hc).2.2.2.2.2.2.2.1⟩)]
+
+/-- a run of `*` or `_` preceded by whitespace (or at the start of the text) cannot close emphasis -/
+theorem canClose_after_space (d b a : Char) (h : uniWs b = true) : canClose d b a = false := by
+  simp [canClose, rightFl, h]
+
+/-- an intraword `_` run (neither neighbour is whitespace or punctuation) cannot close emphasis -/
+theorem canClose_intraword (b a : Char) (hb1 : uniWs b = false) (hb2 : punct b = false)
+    (ha1 : uniWs a = false) (ha2 : punct a = false) : canClose '_' b a = false := by
+  simp [canClose, rightFl, leftFl, hb1, hb2, ha1, ha2]
+
+/-! ## all modelled classes, `Math` and `GithubWiki` included -/
+
+/-- no `[[` -/
+def wikiOk : Str → Bool
+  | [] => true
+  | c :: rest => !(c == '[' && rest.head? == some '[') && wikiOk rest
+
+theorem wikiFindAux_nil : ∀ (fuel pos : Nat) (s : Str), wikiOk s = true → wikiFindAux fuel pos s = []
+  | 0, _, _, _ => by simp [wikiFindAux]
+  | _ + 1, _, [], _ => by simp [wikiFindAux]
+  | fuel + 1, pos, c :: rest, h => by
+    simp only [wikiOk, Bool.and_eq_true, Bool.not_eq_eq_eq_not, Bool.not_true] at h
+    have hw : wikiAt (c :: rest) = none := by
+      unfold wikiAt
+      have : startsWith ['[', '['] (c :: rest) = false := by
+        cases rest with
+        | nil => simp [startsWith]
+        | cons d r =>
+          have h1 := h.1
+          simp only [List.head?_cons, Bool.and_eq_false_imp, beq_iff_eq] at h1
+          simp only [startsWith, List.isPrefixOf_cons_cons, List.isPrefixOf_nil_left, Bool.and_true,
+            Bool.and_eq_false_imp, beq_iff_eq]
+          intro e; subst e
+          simpa using h1 rfl
+      simp [this]
+    simp only [wikiFindAux, hw]
+    exact wikiFindAux_nil fuel (pos + 1) rest h.2
+
+theorem mathAt_none (prev : Option Char) (c : Char) (rest : Str) (h : c ≠ '$') : mathAt prev (c :: rest) = none := by
+  unfold mathAt
+  simp [countLeading_ne _ _ _ h]
+
+/-- with no `$` and no `[[` in the text, `Math` and `GithubWiki` find nothing either: every class -/
+theorem findAll_inert_all (s : Str) (types : List STok) (fn : Footnotes.Table)
+    (h : inertText s = true) (hd : '$' ∉ s) (hw : wikiOk s = true) : findAll s types fn = .ok [] := by
+  have h' := h
+  simp only [inertText, Bool.and_eq_true, Bool.not_eq_eq_eq_not, Bool.not_true, List.contains_eq_mem,
+    decide_eq_false_iff_not] at h
+  rw [findAll_core s types fn h.1]
+  congr 1
+  rw [List.flatMap_eq_nil_iff]
+  intro t _
+  by_cases hm : t = .math
+  · subst hm
+    simp only [findOne, List.map_eq_nil_iff]
+    exact findIter_nil _ (fun s => '$' ∉ s) (fun _ _ hq hm => hq (List.mem_cons_of_mem _ hm))
+      (fun p c r hq => mathAt_none p c r (fun e => hq (by simp [e]))) s hd
+  · by_cases hg : t = .githubWiki
+    · subst hg
+      simp only [findOne, List.map_eq_nil_iff]
+      exact wikiFindAux_nil _ _ s hw
+    · by_cases hlb : t = .lineBreak
+      · subst hlb; exact findOne_lineBreak s h.2
+      · refine findOne_inertBody s (inertBody_parts s h.1).1 t ?_ hlb
+        cases t <;> simp_all [inertClass]
+
+theorem tokenizeInner_inert_all (types : List STok) (fn : Footnotes.Table) (s : Str)
+    (h : inertText s = true) (hd : '$' ∉ s) (hw : wikiOk s = true) (hne : s ≠ []) :
+    tokenizeInner types fn s = .ok [.rawText s] := by
+  rw [tokenizeInner_no_candidates types fn s (findAll_inert_all s types fn h hd hw) hne]
+  simp only [inertText, Bool.and_eq_true] at h
+  rw [unescape_inert s (inertBody_parts s h.1).2.1]
+
 end Mistletoe.InertInline
